@@ -73,6 +73,10 @@ impl<T> RawTable<T> {
         (i < self.i.nslots && self.i.full[i], self.i.hash[i], self.i.slots[i].as_ptr())
     }
     pub fn nslots(&self) -> usize { self.i.nslots }
+    /// verification helper: addresses of the table's own bookkeeping (for Kani `modifies` clauses)
+    pub fn meta_full(&self) -> *mut [bool; MAXCAP] { &self.i.full as *const [bool; MAXCAP] as *mut [bool; MAXCAP] }
+    pub fn meta_items(&self) -> *mut usize { &self.i.items as *const usize as *mut usize }
+    pub fn meta_growth_left(&self) -> *mut usize { &self.i.growth_left as *const usize as *mut usize }
     pub fn growth_left(&self) -> usize { self.i.growth_left }
     pub fn len(&self) -> usize { self.i.items }
     pub fn capacity(&self) -> usize { self.i.items + self.i.growth_left }
